@@ -231,7 +231,14 @@ func errorChainToMain(c *an.Ctx, r *runnerRoles, rule string) {
 				}
 			}
 		}
-		if reachesRecorder && (callee == schedule || callee == runStage || callee.Name() == "Run" && inPkgs("pkg/runner")(callee)) {
+		// (a wrapper of pkg/scheduler around the runner caller — runStage forwarding to a work item — hands on the same error)
+		wraps := false
+		if reachesRecorder && inPkgs("pkg/scheduler")(callee) && runStage != nil {
+			if _, ok := p.Reach([]*ssa.Function{callee}, func(e an.CallEdge) bool { return e.Kind == an.EdgeCall && inPkgs("pkg/scheduler")(e.Callee) })[runStage]; ok {
+				wraps = true
+			}
+		}
+		if reachesRecorder && (wraps || callee == schedule || callee == runStage || callee.Name() == "Run" && inPkgs("pkg/runner")(callee)) {
 			return "the stage's error is recorded as the run's error, which Schedule returns (decided by C02.2 / C02.4)"
 		}
 		return inner(caller, callee)
